@@ -259,6 +259,18 @@ PROPS = {
                      "escaped-quote spellings inside quoted arguments are not generated (their intended value is not settled by the statement)"],
         floors=(400_000, 40_000, 8_000_000, 400_000),
     ),
+    "C20": simple(
+        rule="case = debug-mode rule set of 1-8 rules: network rules with every anchor / option / modifier, regex metacharacters, '$', '|', ',' and "
+             "non-ASCII inside patterns, from= alias, IDN / punycode / invalid-IDNA / upper-case domains, negated and mixed domain lists, "
+             "scheme-only rules with negated types, full-regex rules; cosmetic rules with hostnames, entities, negations, unhide, actions, +js, "
+             "non-ASCII and quoted selectors. evaluation = into_content_blocking() under catch_unwind + output monitors (ASCII-only, url-filter "
+             "inside the Safari regex subset per an independent validator and compilable, never if-domain with unless-domain, no blocking entry "
+             "after an ignore-previous-rules entry, filters_used == sequence of lines that produce output when converted alone, and for plain "
+             "patterns every battery URL the single-rule engine blocks is matched by the emitted url-filter). non-trivial = >= 1 rule converted "
+             "and >= 1 rejected; distinct = hash of the rule set.",
+        assumptions=["the Safari regex subset is the harness's reading of Apple's content-blocker documentation (., [a-b], ?+*, groups, ^ at start, $ at end, no | {} or class escapes)"],
+        floors=(50_000, 20_000, 1_500_000, 300_000),
+    ),
 }
 
 # ---------------------------------------------------------------------------------------------
@@ -392,6 +404,14 @@ MANIFEST_TEXT = {
         "note": "Function-style scriptlets only for argument encoding (as the statement says); template-style substitution is outside it.",
         "technique": "runtime monitoring: exhaustive small matrix + randomized safety/completeness oracles + output re-parsing",
         "design_ref": "DESIGN.md §4.18",
+    },
+    "C20": {
+        "text": "Runtime monitor on the real exporter: generated hostile rule sets are converted under a panic catcher and every emitted rule is "
+                "checked by output monitors (ASCII, Safari regex subset, domain-list exclusivity, ordering, filters_used bookkeeping vs per-rule "
+                "conversion, plain-pattern implication against a single-rule engine).",
+        "note": "filters_used and implication use the code under test on single rules as a metamorphic reference.",
+        "technique": "runtime monitoring: totality under catch_unwind + output well-formedness monitors + metamorphic single-rule comparison",
+        "design_ref": "DESIGN.md §4.20",
     },
 }
 
